@@ -63,7 +63,10 @@ func structureProblem(parent *reference.Target, ts reference.Targets, depth int,
 				var n int
 				if _, err := fmt.Sscanf(last, "[%d]", &n); err == nil && !strings.Contains(last, "\"") && t.RangePtr != nil {
 					// list index = source order
-					if n == lastIdx+1 {
+					// (an element the constraint declares but the value does not write
+					// is reported with an empty range at the start of the value: it has
+					// no place in the source to be ordered by)
+					if n == lastIdx+1 && t.RangePtr.Start.Byte != t.RangePtr.End.Byte {
 						if t.RangePtr.Start.Byte < lastStart {
 							return fmt.Sprintf("index %s of %s is not in source order", last, parent.Addr.String())
 						}
@@ -166,7 +169,13 @@ func (o *C09) Check(x *h.Exec, ev *h.Event) {
 						if as == nil {
 							as = mc.Body.Any
 						}
-						if as != nil && consHasAddrRef(as.Cons) {
+						// inferred bodies are read with the static body even where a
+					// dependent body overrides the attribute: either declaration counts
+					var static *world.AttrSpec
+					if mc.Block != nil && mc.Block.Body != nil {
+						static = mc.Block.Body.Attr(it.Attr.Name)
+					}
+					if (as != nil && consHasAddrRef(as.Cons)) || (static != nil && consHasAddrRef(static.Cons)) {
 							it.Attr.Expr.Walk(func(e *world.Expr) {
 								if e.ID > 0 && e.ID < len(rd.Nodes) && rd.Nodes[e.ID] != nil {
 									sp := rd.Nodes[e.ID].Range
